@@ -232,6 +232,19 @@ func init() {
 		},
 	})
 	register(&PropSpec{
+		ID: "C17",
+		Explanation: "Decided: R-ERRORIGIN - interprocedural error-origin summaries show that every error value that can leave Unserialize / Validate (and typed variants) of any " +
+			"schema type originates as a *ConstraintError (origins in schema-mode compatibility code, reached only when the argument is itself a schema, are listed, not " +
+			"claimed); R-PATHSEG - wherever the failure of a child operation decides a rejecting return, the returned error is the child's error itself or that error " +
+			"passed through ConstraintErrorAddPathSegment; a container returning an element's error inside its loop without a segment, or any function replacing the child's " +
+			"error by a newly built one, is a violation (3 genuine re-wraps on the one-of Validate path are known findings). NOT decided: that the segment text equals the " +
+			"user's key spelling; the order of segments (the prepend in AddPathSegment is value-level).",
+		Rules: []func(*Ctx){
+			func(c *Ctx) { c.ruleErrOrigin("R-ERRORIGIN") },
+			func(c *Ctx) { c.rulePathSeg("R-PATHSEG") },
+		},
+	})
+	register(&PropSpec{
 		ID: "C18",
 		Explanation: "Decided: R-TYPEID - the handler's parameter and result types (values of reflect.Type.In/Out) influence acceptance only through identity comparison with a " +
 			"reflect.Type or through Kind(), never through their name/String or Implements/AssignableTo/ConvertibleTo; R-REFLECT - Handler.Type() is only reached after " +
